@@ -121,9 +121,56 @@ func init() {
 		if len(adds) != 1 {
 			c.Undecided("C32c: expected one store to ExtensionInfo.AdditionalExtensions in JsonRPCChainParser.ParseMsg, found %d", len(adds))
 		}
+		// the threshold test may live in a helper predicate(parsedBlock, latestBlock): then the helper is held to
+		// the same obligations (no unsigned wrap; true only past a comparison with the 126 window)
+		helperOK := func(g ir.Guard) bool {
+			v, edge := stripNot(g.If.Cond, g.Edge)
+			call, _ := callOfValue(v)
+			if call == nil || !edge {
+				return false
+			}
+			h := call.Call.StaticCallee()
+			if h == nil || !inProd(h) || len(h.Blocks) == 0 {
+				return false
+			}
+			hasBlock, hasLatest := false, false
+			for _, a := range call.Call.Args {
+				d := ir.Desc(a)
+				if strings.Contains(d, "call(protocol/parser.ParsedInput.GetBlock)(") {
+					hasBlock = true
+				}
+				if strings.HasSuffix(d, ".LatestBlock") {
+					hasLatest = true
+				}
+			}
+			if !hasBlock || !hasLatest {
+				return false
+			}
+			c.RequireNoUnsignedWrap("C32a", ir.FuncName(h), 0)
+			okTrue := false
+			for _, r := range c.AllReturns(h) {
+				ret := r.Instr.(*ssa.Return)
+				if len(ret.Results) != 1 {
+					continue
+				}
+				d := ir.Desc(ret.Results[0])
+				if d == "const(false)" {
+					continue
+				}
+				if strings.Contains(d, "const(126)") || ir.HasFact(ir.GuardFacts(ret), "const(126)") || strings.Contains(d, c.Const("protocol/chainlib", "ethCallStateWindow")) && c.Const("protocol/chainlib", "ethCallStateWindow") != "" {
+					okTrue = true
+				} else {
+					c.Fail("C32c/"+ir.FuncName(h)+"/true-only-past-126-window", c.P.InstrPos(ret), "the eth_call window predicate can answer true without comparing against the 126-block window: "+trunc(d, 100))
+				}
+			}
+			return okTrue
+		}
+		older := FactHas("older-than-126", "(conv<uint64>(call(protocol/parser.ParsedInput.GetBlock)(", ".LatestBlock - const(126)))")
+		directOlder := older.Match
+		older.Match = func(g ir.Guard) bool { return directOlder(g) || helperOK(g) }
 		c.RequireGuards("C32c", adds, "add-archive",
 			FactHas("eth_call", ".Method == const(\"eth_call\"))"),
-			FactHas("older-than-126", "(conv<uint64>(call(protocol/parser.ParsedInput.GetBlock)(", ".LatestBlock - const(126)))"))
+			older)
 		for _, a := range adds {
 			d := ir.Desc(a.Instr.(*ssa.Store).Val)
 			// appended elements: stores into the literal array behind the appended slice
